@@ -111,7 +111,7 @@ class Prop:
     case_module = "CaseC06"
     case_vo = "theories/Cases/CaseC06.vo"
     run_fn = "run06"
-    shard = 6
+    shard = 10
     rule = ("one case = one tree: every ordered forest shape with <= N nodes (N=5 quick, 7 thorough; <=4 resp. <=5 nodes with every "
             "signal shape, larger ones with a rotating skip/stop/error shape) plus seeded random deep/wide plain and typed trees up to "
             "60 (thorough 200) nodes with sampled start/signal nodes; per tree: 8 methods x every start node (and the whole tree) x "
